@@ -78,6 +78,48 @@ func parseFormat(f string) []fmtItem {
 func (c *Ctx) RuleWrap(fns []*ssa.Function) {
 	n := 0
 	for _, fn := range fns {
+		// an error flattened to its text on the way up (errors.New("…: " + err.Error()), "%s" of err.Error()): the message is
+		// the same, the chain is gone. Error() methods themselves (which render what they carry) are not on the way up.
+		res := fn.Signature.Results()
+		returnsErr := res.Len() > 0 && isErrorType(res.At(res.Len()-1).Type())
+		if returnsErr && !(fn.Signature.Recv() != nil && (fn.Name() == "Error" || fn.Name() == "String")) {
+			for _, b := range fn.Blocks {
+				for _, in := range b.Instrs {
+					ec, ok := in.(*ssa.Call)
+					if !ok || !ec.Call.IsInvoke() || ec.Call.Method.Name() != "Error" || !isErrorType(ec.Call.Value.Type()) {
+						continue
+					}
+					// its text becomes (part of) a new error
+					feeds := false
+					seen := map[ssa.Value]bool{}
+					var walk func(v ssa.Value, depth int)
+					walk = func(v ssa.Value, depth int) {
+						if seen[v] || depth > 6 || v.Referrers() == nil {
+							return
+						}
+						seen[v] = true
+						for _, r := range *v.Referrers() {
+							switch x := r.(type) {
+							case *ssa.Call:
+								if f := x.Call.StaticCallee(); f != nil && (f.String() == "errors.New" || f.String() == "fmt.Errorf") {
+									feeds = true
+								}
+							case *ssa.BinOp, *ssa.MakeInterface, *ssa.Phi, *ssa.Slice:
+								walk(x.(ssa.Value), depth+1)
+							case *ssa.Store:
+								if ia, ok := x.Addr.(*ssa.IndexAddr); ok { // a variadic operand
+									walk(ia.X, depth+1)
+								}
+							}
+						}
+					}
+					walk(ec, 0)
+					if feeds {
+						c.add("violated", "S-WRAP", fn, ec.Pos(), "an error is flattened to its text (err.Error()) and a new error is made from it: errors.Is / errors.As no longer find what it wrapped")
+					}
+				}
+			}
+		}
 		for _, b := range fn.Blocks {
 			for _, in := range b.Instrs {
 				call, ok := in.(*ssa.Call)
@@ -429,6 +471,17 @@ func (c *Ctx) writesThroughParam(fn *ssa.Function, idx int, depth int) []ssa.Ins
 			case *ssa.Call:
 				callee := c.StaticCallee(&x.Call)
 				if callee == nil || !inRepo(callee) {
+					// a pointer into the receiver handed to code outside the module (binary.Read(r, order, &d.year),
+					// json.Unmarshal(data, s)): taken to write through it
+					for _, a := range x.Call.Args {
+						v := a
+						if mi, ok := v.(*ssa.MakeInterface); ok {
+							v = mi.X
+						}
+						if _, isPtr := v.Type().Underlying().(*types.Pointer); isPtr && derived[v] {
+							sites = append(sites, in)
+						}
+					}
 					continue
 				}
 				for ai, a := range x.Call.Args {
@@ -697,6 +750,13 @@ func (c *Ctx) RuleLimitZero(fns []*ssa.Function, varName string) {
 				// normalised strictness: the edge that rejects must be taken exactly when value > Max. The rejecting edge
 				// is the successor that leads only to error returns; with the comparison on the true edge that is
 				// `value > Max` / `Max < value`, on the false edge `value <= Max` / `Max >= value`.
+				// what is measured against the input-length limit is the byte length of one input text — len of a
+				// parameter (through string/[]byte conversions only), or an integer parameter standing for it in a guard
+				// helper: `l+1 > Max`, `len([]rune(s)) > Max`, `len(a)+len(b) > Max` reject or admit other texts
+				if g.Name() == "MaxInputLength" && !byteLenOfParam(other) {
+					c.add("violated", "C18.L", fn, bo.Pos(), "what is compared with "+g.Name()+" is not the byte length of the input ("+other.String()+"): inputs within the limit can be refused, or longer ones admitted")
+					continue
+				}
 				maxOnRight := globalLoad(bo.Y) != nil
 				strictTrue := (bo.Op == token.GTR && maxOnRight) || (bo.Op == token.LSS && !maxOnRight)
 				strictFalse := (bo.Op == token.LEQ && maxOnRight) || (bo.Op == token.GEQ && !maxOnRight)
@@ -737,6 +797,54 @@ func (c *Ctx) RuleLimitZero(fns []*ssa.Function, varName string) {
 			}
 		}
 	}
+}
+
+// byteLenOfParam: v is len(p) for a parameter p reached through conversions between byte-sequence types only (string,
+// []byte, a ParserInput type parameter — not []rune), or an integer parameter (the length handed to a guard helper).
+func byteLenOfParam(v ssa.Value) bool {
+	v = stripConv(v)
+	if p, ok := v.(*ssa.Parameter); ok {
+		return isIntParam(p)
+	}
+	arg, ok := isLenOf(v)
+	if !ok {
+		return false
+	}
+	for i := 0; i < 8; i++ {
+		switch x := arg.(type) {
+		case *ssa.Parameter:
+			return true
+		case *ssa.MultiConvert:
+			arg = x.X
+		case *ssa.ChangeType:
+			arg = x.X
+		case *ssa.Convert:
+			if !byteSeq(x.Type()) || !byteSeq(x.X.Type()) {
+				return false
+			}
+			arg = x.X
+		case *ssa.UnOp: // a parameter captured by a closure lives in a cell
+			if p := rootParam(x); p != nil {
+				return true
+			}
+			return false
+		default:
+			return false
+		}
+	}
+	return false
+}
+
+// byteSeq: string or []byte (by underlying type).
+func byteSeq(t types.Type) bool {
+	switch u := t.Underlying().(type) {
+	case *types.Basic:
+		return u.Info()&types.IsString != 0
+	case *types.Slice:
+		b, ok := u.Elem().Underlying().(*types.Basic)
+		return ok && b.Kind() == types.Uint8
+	}
+	return false
 }
 
 func (c *Ctx) dominatedByNonZeroTest(b *ssa.BasicBlock, g *ssa.Global) bool {
